@@ -83,7 +83,7 @@ def run(module, cfg, workdir, workers=16, timeout=900, coverage=False, simulate=
     cfgp = cfg if os.path.isabs(cfg) else os.path.join(SPEC, cfg)
     os.makedirs(workdir, exist_ok=True)
     meta = os.path.join(workdir, 'meta-%d-%d' % (os.getpid(), int(time.time() * 1000) % 100000000))
-    jopts = ['-XX:+UseParallelGC', '-Xmx' + heap, '-DTLA-Library=' + _libpath()]
+    jopts = ['-XX:+UseParallelGC', '-Xmx' + heap, '-DTLA-Library=' + _libpath(), '-Djava.io.tmpdir=' + workdir]
     if dfs:
         jopts.append('-Dtlc2.tool.queue.IStateQueue=StateDeque')
     cmd = ['java'] + jopts + ['-cp', JAR, 'tlc2.TLC', '-workers', str(workers), '-metadir', meta,
